@@ -205,6 +205,7 @@ var capClass = map[string]int{
 	`[0-9]+`: 0, `-?[0-9]+`: 1, `[0-9]+\.[0-9]+`: 2, `[0-9A-Z_a-z]+`: 3, `[^\t-\n\f-\r ]+`: 4, `[^\t\n\f\r ]+`: 4,
 	`(?-s:.*)`: 5, `(?-s:.+)`: 5, `[a-z]+`: 6, `[0-9]{8}`: 7,
 	`[0-9A-Z_a-z]{3} [ 0-9][0-9] [0-9][0-9]:[0-9][0-9]:[0-9][0-9]`: 8,
+	`[0-9A-Z_a-z]{3} [ 0-9][0-9] [0-9][0-9]:[0-9][0-9]:[0-9][0-9] [\+\-][0-9]{4}`: 9,
 }
 
 func capClasses(pattern string) ([]int, error) {
@@ -361,6 +362,7 @@ func c07Progs() []c07Prog {
 		{"syslog", []c07Blk{{"strptime", "Jan _2 15:04:05", sys}, {"none", "", ""}}, true},
 		{"settime", []c07Blk{{"settime", "", ""}, {"none", "", ""}}, true},
 		{"none", []c07Blk{{"none", "", ""}, {"strptime", "20060102", d8}, {"none", "", ""}}, true},
+		{"zoned", []c07Blk{{"strptime", "Jan _2 15:04:05 -0700", sys + ` [+-]\d{4}`}, {"none", "", ""}}, false},
 		{"mixed", []c07Blk{{"settime", "", ""}, {"strptime", "Jan _2 15:04:05", sys}, {"strptime", "20060102", d8}}, false},
 	}
 }
@@ -406,7 +408,7 @@ func c07Corpus() []vmProg {
 func init() {
 	as := append(append([]string{
 		"time.Parse/ParseInLocation(layout, value[, zone]) are uninterpreted functions of the value bytes per (layout, zone, length); Time.Year and Time.AddDate(y,0,0) are uninterpreted functions of the wall-clock reading in the instant's zone; counterexample models are refined against the native functions; the code under test and the oracle must apply them to the same arguments",
-		"zones: none, UTC+9 and UTC-3:30 (time.FixedZone); the process zone is UTC; layouts without zone elements",
+		"zones: none, UTC+9 and UTC-3:30 (time.FixedZone); the process zone is UTC; one layout whose values carry their own numeric zone (-0700)",
 		"the wall clock is one arbitrary instant in [2001, 2200) for the whole run (vClockFreeze): timestamp() and the datum stamp read the same clock",
 	}, vmAssumptions...), baseAssumptions...)
 	register(&CheckDef{ID: "C07", Level: "model_checking", Only: []string{"C07."}, Assumptions: as,
@@ -419,5 +421,5 @@ func init() {
 			}
 			return jobs
 		},
-		Outside: []string{"layouts other than 20060102, 02012006, Jan _2 15:04:05; values carrying their own zone", "IANA zones with transitions (time.LoadLocation)", "values of other lengths than the layout's", "the instant reserved to mean unset (settime: excluded by the property; strptime: listed known finding)"}})
+		Outside: []string{"layouts other than 20060102, 02012006, Jan _2 15:04:05, Jan _2 15:04:05 -0700", "IANA zones with transitions (time.LoadLocation)", "values of other lengths than the layout's", "the instant reserved to mean unset (settime: excluded by the property; strptime: listed known finding)"}})
 }
